@@ -1,0 +1,59 @@
+//go:build verif
+
+// Contracts for the deductive verifier under /verif (foxvc). This file holds
+// comments only: it adds no code to the package, with or without the tag.
+
+package fox
+
+//@ package fox
+
+//@ func FixTrailingSlash props C08
+//@   ensures add: !(len(path) > 1 && path[len(path)-1] == '/') ==> len(result) == len(path)+1 && result[len(path)] == '/' && forall i int :: 0 <= i && i < len(path) ==> result[i] == path[i]
+//@   ensures remove: len(path) > 1 && path[len(path)-1] == '/' ==> result == path[:len(path)-1]
+
+//@ func level props C20
+//@   ensures info: (200 <= status && status < 300) ==> result == 0
+//@   ensures debug: (300 <= status && status < 400) ==> result == -4
+//@   ensures warn: (400 <= status && status < 500) ==> result == 4
+//@   ensures error: status >= 500 ==> result == 8
+//@   ensures other: status < 200 ==> result == 0
+
+//@ -- ---------------------------------------------------------------- C17: CleanPath
+
+//@ fun out(p string, buf []byte, i int) int = len(buf) == 0 ? p[i] : buf[i]
+
+//@ func bufApp props C17
+//@   requires buf != nil
+//@   requires 0 <= w
+//@   requires len(*buf) == 0 ==> w < len(s)
+//@   requires len(*buf) != 0 ==> w < len(*buf)
+//@   modifies *buf, E[byte], alloc
+//@   ensures lazy: old(len(*buf)) == 0 && s[w] == c ==> len(*buf) == 0
+//@   ensures alloc: old(len(*buf)) == 0 && s[w] != c ==> len(*buf) == len(s) && (*buf)[w] == c
+//@   ensures copied: old(len(*buf)) == 0 && s[w] != c ==> forall i int :: 0 <= i && i < w ==> (*buf)[i] == s[i]
+//@   ensures write: old(len(*buf)) != 0 ==> *buf == old(*buf) && (*buf)[w] == c
+//@   ensures keep: old(len(*buf)) != 0 ==> forall i int :: 0 <= i && i < len(*buf) && i != w ==> (*buf)[i] == old((*buf)[i])
+
+//@ func CleanPath props C17
+//@   loop 1: invariant bounds: 1 <= w && 0 <= r && r <= n+1 && n == len(p) && n >= 1
+//@   loop 1: invariant buflen: len(buf) == 0 || len(buf) == n || len(buf) == n+1
+//@   loop 1: invariant lazy: len(buf) == 0 ==> p[0] == '/'
+//@   loop 1: invariant wr: len(buf) != n+1 ==> w <= r && (w > 1 && w == r ==> r >= n || p[r] == '/')
+//@   loop 1: invariant wr1: len(buf) == n+1 ==> w <= r+1 && (w > 1 && w == r+1 ==> r >= n || p[r] == '/')
+//@   loop 1: invariant boundary: r == 0 || r >= n || p[r] == '/' || p[r-1] == '/'
+//@   loop 1: invariant trail: trailing ==> (n > 1 && p[n-1] == '/') || r >= n
+//@   loop 1: invariant wn: (len(buf) != n+1 ==> w <= n) && (len(buf) == n+1 ==> w <= n+1)
+//@   loop 1: invariant endw: r >= n && trailing ==> (len(buf) != n+1 ==> w < n) && (len(buf) == n+1 ==> w < n+1)
+//@   loop 1: decreases n + 1 - r
+//@   loop 2: invariant 1 <= w && w <= entry(w)
+//@   loop 2: decreases w
+//@   loop 3: invariant 1 <= w && w <= entry(w)
+//@   loop 3: decreases w
+//@   loop 4: invariant entry(r) <= r && r <= n && w - entry(w) == r - entry(r) && entry(w) >= 1
+//@   loop 4: invariant buflen: len(buf) == 0 || len(buf) == n || len(buf) == n+1
+//@   loop 4: invariant lazy: len(buf) == 0 ==> p[0] == '/'
+//@   loop 4: invariant len(buf) != n+1 ==> entry(w) <= entry(r)
+//@   loop 4: invariant len(buf) == n+1 ==> entry(w) <= entry(r)+1
+//@   loop 4: invariant entry(len(buf)) != 0 ==> len(buf) == entry(len(buf))
+//@   loop 4: invariant forall k int :: entry(r) <= k && k < r ==> p[k] != '/'
+//@   loop 4: decreases n - r
